@@ -325,6 +325,10 @@ class Normaliser:
         for n in ast.walk(fn):
             if isinstance(n, (ast.Match, ast.IfExp)):
                 return True
+            if isinstance(n, ast.Assign) and isinstance(n.targets[0], (ast.Tuple, ast.List)) \
+                    and isinstance(n.value, ast.Call) and isinstance(n.value.func, ast.Name) \
+                    and n.value.func.id[:1].isupper():
+                return True
             if isinstance(n, (ast.FunctionDef, ast.AsyncFunctionDef)) and n is not fn:
                 return True
             if isinstance(n, ast.Call):
@@ -348,9 +352,47 @@ class Normaliser:
             c2 = self._ifexp_to_if(fn)
             c2 = self._format_to_fstring(fn) or c2
             c3 = self._inline_calls(fn, rel, mod, cls, stack, depth) if depth < MAX_DEPTH else False
-            changed = changed or c1 or c2 or c3
-            if not (c1 or c2 or c3):
+            c4 = self._namedtuple_unpack(fn, mod)
+            changed = changed or c1 or c2 or c3 or c4
+            if not (c1 or c2 or c3 or c4):
                 break
+        return changed
+
+    def _namedtuple_unpack(self, fn: ast.AST, mod) -> bool:
+        """`a, b = Pair(first=x, second=y)` with `class Pair(NamedTuple)` of the same module:
+        `a, b = (x, y)` - the record exists only to be taken apart again"""
+        classes = {c.name: c for c in getattr(mod, 'body', []) if isinstance(c, ast.ClassDef)
+                   and any(ast.unparse(b).split('.')[-1] == 'NamedTuple' for b in c.bases)}
+        if not classes:
+            return False
+        changed = False
+        for n in ast.walk(fn):
+            if not (isinstance(n, ast.Assign) and len(n.targets) == 1 and isinstance(n.targets[0], (ast.Tuple, ast.List))
+                    and isinstance(n.value, ast.Call) and isinstance(n.value.func, ast.Name)
+                    and n.value.func.id in classes):
+                continue
+            c = classes[n.value.func.id]
+            fields = [(x.target.id, x.value) for x in c.body if isinstance(x, ast.AnnAssign)
+                      and isinstance(x.target, ast.Name)]
+            call = n.value
+            if any(isinstance(a, ast.Starred) for a in call.args) or any(k.arg is None for k in call.keywords):
+                continue
+            actual = {}
+            for (name, _d), a in zip(fields, call.args):
+                actual[name] = a
+            for k in call.keywords:
+                actual[k.arg] = k.value
+            vals = []
+            for name, dflt in fields:
+                v = actual.get(name, dflt)
+                if v is None:
+                    vals = None
+                    break
+                vals.append(v)
+            if vals is None or len(vals) != len(n.targets[0].elts) or len(actual) > len(fields):
+                continue
+            n.value = ast.copy_location(ast.Tuple(elts=vals, ctx=ast.Load()), call)
+            changed = True
         return changed
 
     def _blocks(self, fn: ast.AST):
